@@ -469,11 +469,33 @@ def forall_histories(ctx, seed):
                     return mm
                 m = build(True); ref = build(False)
             elif kind == 'piecewise-forall-twice':
-                m = ro.Model(); x = m.dvar(); z = m.rvar(); c = (rso.maxof(a * z - x, -a * z - x) <= 0)
-                c1 = c.forall(abs(z) <= r1); c2 = c.forall(abs(z) <= r2)
-                m.min(x); m.st(c1)
-                ref = ro.Model(); x2 = ref.dvar(); z2 = ref.rvar(); ref.min(x2)
-                ref.st((rso.maxof(a * z2 - x2, -a * z2 - x2) <= 0).forall(abs(z2) <= r1))
+                # forall() gives the set to the constraint itself and returns it - for piecewise constraints exactly as for affine
+                # ones: after a second forall() the constraint carries the second set, whichever handle is added to the model,
+                # and a forall() after st() takes effect
+                pw = lambda x_, z_: (rso.maxof(a * z_ - x_, -a * z_ - x_) <= 0)
+                aff = lambda x_, z_: (a * z_ - x_ <= 0)
+                which = str(r.choice(['twice', 'after-st', 'after-st-dro-E']))
+                if which == 'after-st-dro-E':
+                    m = dro.Model(1); x = m.dvar(); z = m.rvar()
+                    f1 = m.ambiguity(); f1.suppset(z >= 0, z <= r1); f2 = m.ambiguity(); f2.suppset(z >= 0, z <= r2)
+                    c = (rso.E(rso.maxof(a * z - x, -x - 7)) <= 0); m.minsup(rso.E(x), f1); m.st(c); c.forall(f2)
+                    ref = dro.Model(1); x2 = ref.dvar(); z2 = ref.rvar()
+                    g1 = ref.ambiguity(); g1.suppset(z2 >= 0, z2 <= r1); g2 = ref.ambiguity(); g2.suppset(z2 >= 0, z2 <= r2)
+                    ref.minsup(rso.E(x2), g1); ref.st((rso.E(rso.maxof(a * z2 - x2, -x2 - 7)) <= 0).forall(g2))
+                else:
+                    m = ro.Model(); x = m.dvar(); z = m.rvar(); c = pw(x, z); m.minmax(x, abs(z) <= 0.5)
+                    if which == 'twice':
+                        c1 = c.forall(abs(z) <= r1); c2 = c.forall(abs(z) <= r2); m.st(c1)
+                    else:
+                        m.st(c); c.forall(abs(z) <= r2)
+                    ref = ro.Model(); x2 = ref.dvar(); z2 = ref.rvar(); c_ = aff(x2, z2); ref.minmax(x2, abs(z2) <= 0.5)
+                    if which == 'twice':
+                        d1 = c_.forall(abs(z2) <= r1); d2 = c_.forall(abs(z2) <= r2); ref.st(d1)
+                    else:
+                        ref.st(c_); c_.forall(abs(z2) <= r2)
+                    ref.st(x2 >= 0)
+                    m.st(x >= 0)
+                case['which'] = which
             else:
                 def build(presolve):
                     mm = ro.Model(); t = mm.dvar(); x = mm.dvar(2); mm.min(t)
